@@ -14,6 +14,8 @@
  *   K                       take the oracle stat of every path, release the pool, wait until
  *                           every queued stat has run, block the pool again
  *   A<d>                    the clock advances by d ms
+ *   U<id>,<delay>           the script starts a one-shot uv_timer of its own (top level only); its callback
+ *                           prints u<id> and runs the next scripted behaviour (stop/close/restart of handles)
  *   R                       uv_run(UV_RUN_NOWAIT)
  *   Z                       oracle; release the pool for good; run until uv_run says 0; uv_loop_close
  *   Fw<p>,<n> Ft<p> Fm<p>,<mode> Fu<p> Fc<p> Fd<p>   write n bytes / truncate / chmod / unlink /
@@ -253,6 +255,10 @@ static void cb2(uv_fs_poll_t* h, int st, const uv_stat_t* a, const uv_stat_t* b)
 static void cb3(uv_fs_poll_t* h, int st, const uv_stat_t* a, const uv_stat_t* b) { on_poll(h, 3, st, a, b); }
 static uv_fs_poll_cb cbs[] = { cb1, cb1, cb2, cb3 };
 static void close_cb(uv_handle_t* h) { H[idx(h)]->closed = 1; printf("x%d ", idx(h)); run_beh(); }
+/* the script's own timers */
+static uv_timer_t* UT[256]; static int nut;
+static void user_timer_cb(uv_timer_t* t) { printf("u%d ", (int) (intptr_t) t->data); run_beh(); }
+static void user_close_cb(uv_handle_t* h) { (void) h; }
 
 static void file_op(const char* tok) {
   int p = -1; long a = 0, b = 0; int fd;
@@ -325,12 +331,19 @@ static void do_ops(char* ops, int in_cb) {
       print_statlog();
       break;
     case 'A': if (!in_cb && sscanf(tok + 1, "%" SCNu64, &a) == 1) vclock_ms += a; break;
+    case 'U':
+      if (!in_cb && sscanf(tok + 1, "%d,%" SCNu64, &i, &a) == 2 && nut < 256) {
+        UT[nut] = calloc(1, sizeof(uv_timer_t)); uv_timer_init(&loop, UT[nut]); UT[nut]->data = (void*) (intptr_t) i;
+        uv_timer_start(UT[nut], user_timer_cb, a, 0); nut++;
+      }
+      break;
     case 'R': if (!in_cb) { printf("g "); uv_run(&loop, UV_RUN_NOWAIT); } break;
     case 'Z':
       if (in_cb) break;
       {
         int r, n = 0; long base_other;
         oracle_all();
+        { int j; for (j = 0; j < nut; j++) uv_close((uv_handle_t*) UT[j], user_close_cb); }
         uv_sem_post(&cur_blk->sem); cur_blk = NULL;
         do { pool_sync(); print_statlog(); printf("g "); r = uv_run(&loop, UV_RUN_NOWAIT); } while (r != 0 && ++n < 64);
         r = uv_loop_close(&loop);
